@@ -9,6 +9,7 @@ import shutil
 from .. import classify, drive, hist, world
 from ..oracle import ignoreref
 
+TECHNIQUE = 'runtime monitoring: fault injection into sealed trees, exit-code and output oracle for verify / diff / create on copies of the mutated tree'
 LEVEL = "exploration"
 RULE = (
     "case = sealed history (1-5 generations on monotonically growing content, changing format sets, optional -i patterns, "
